@@ -488,6 +488,29 @@ OBLIGATIONS += [
     k2("syscall.named", _k2h("ecs::named_syscall", "named_syscall_state_per_key"), ["C17"],
        ["named_syscall", "SysName::new", "IdMappedSystems"], ["src/ecs/named_syscall.rs"], "3 calls with one name + 1 with another; input any u8 < 50",
        "state persists over three calls with the same key (the system is put back every time); another name is independent"),
+    k2("syscall.named_direct", _k2h("ecs::named_syscall", "named_syscall_direct_unknown_then_registered"), ["C17"],
+       ["named_syscall_direct", "register_named_system", "register_named_system_from", "CallbackSystem::take_initialized", "SysName::new_raw"],
+       ["src/ecs/named_syscall.rs", "src/ecs/callbacks.rs"],
+       "1 registered name, 4 direct calls (2 of them to unknown names); input any u8 < 50; the system queues one command per run",
+       "an unknown name is an error and runs nothing; a registered name runs exactly its system, returns the output, has applied the "
+       "system's commands on return and keeps its state across calls"),
+    k2("syscall.named_direct_two_names", _k2h("ecs::named_syscall", "named_syscall_direct_two_names"), ["C17"],
+       ["named_syscall_direct", "register_named_system", "register_named_system_from"], ["src/ecs/named_syscall.rs", "src/ecs/callbacks.rs"],
+       "2 registered names of one function type, 3 direct calls; input any u8 < 50",
+       "names registered with the same function type keep independent, persistent state", tiers=("thorough",)),
+    k2("syscall.named_register_replaces", _k2h("ecs::named_syscall", "named_syscall_register_replaces"), ["C17"],
+       ["register_named_system", "register_named_system_from", "named_syscall_direct"], ["src/ecs/named_syscall.rs", "src/ecs/callbacks.rs"],
+       "1 name registered twice, 3 direct calls; input any u8 < 50",
+       "re-registering a name replaces its system (fresh state, documented), which then persists", tiers=("thorough",)),
+    k2("syscall.named_commands", _k2h("ecs::named_syscall", "named_syscall_commands_applied_on_return"), ["C17"],
+       ["named_syscall", "IdMappedSystems"], ["src/ecs/named_syscall.rs"], "2 calls with one name; input any u8 < 50; the system queues one command per run",
+       "the called system's commands are applied before named_syscall returns, on the creating call and on a later call; nothing stays queued"),
+    k2("syscall.named_reentrant", _k2h("ecs::named_syscall", "named_syscall_reentrant_same_key"), ["C17"],
+       ["named_syscall", "IdMappedSystems"], ["src/ecs/named_syscall.rs"],
+       "2 calls with one name; in the first the system queues a command that calls the SAME name while the outer call is in progress; input any u8 < 50",
+       "calls made from commands of other calls, same key: outer and nested invocation each run exactly once with their commands applied "
+       "before the outer call returns; the nested one runs on a fresh state (documented), the outer-most state is the one that persists; "
+       "the key stays usable"),
 ]
 
 for (nm, what) in [("two_same_type", "2 entries of one reaction type"), ("two_types", "2 entries of two reaction types")]:
@@ -880,7 +903,7 @@ _QUICK_ONLY_FOR = {
     "desp.witness": ["C12"], "ent.witness": ["C12"], "bundle.reactor_types": ["C06", "C16"],
     "rc.broadcast_0_2": ["C01", "C05"], "rc.broadcast_2_1": ["C01", "C05", "C03"],
     # runner steps / command application / setup-cleanup pairs (measured 25-150 s each)
-    "runner.replay_1_nested": ["C09"], "runner.replay_2_root": ["C02", "C11", "C05"], "runner.replay_3_root": ["C09"], "runner.replay_order_three": ["C12"], "runner.poll_reaction": ["C08", "C02"], "runner.real_callback": ["C04"], "runner.polls_after_run": ["C08", "C07", "C04"], "runner.self_despawn_root": ["C11"],
+    "runner.replay_1_nested": ["C09"], "runner.replay_2_root": ["C02", "C11", "C05"], "runner.replay_3_root": ["C09"], "runner.replay_order_three": ["C12"], "runner.poll_reaction": ["C08", "C02"], "runner.real_callback": ["C04"], "runner.polls_after_run": ["C08", "C07", "C04"], "runner.self_despawn_root": ["C11", "C05", "C18"],
     "runner.missing_root": ["C02", "C18"], "runner.entity_without_system": ["C11", "C05"],
     "runner.busy_nested": ["C02", "C09", "C12"], "runner.plain_run": ["C02", "C13", "C04", "C09"], "runner.witness": ["C02", "C09"],
     "cmd.apply_system_command": ["C02"], "cmd.apply_event_command": ["C05", "C12"], "cmd.apply_reaction_resource": ["C02"],
